@@ -130,6 +130,19 @@ SessionVals session_values(const KeyAggCtx &c, const uint8_t aggnonce66[66], con
 bool partial_sig_verify(const KeyAggCtx &c, const SessionVals &sv, const uint8_t psig32[32], const uint8_t pubnonce66[66], const uint8_t pk33[33]);
 bool partial_sig_agg(const KeyAggCtx &c, const SessionVals &sv, const std::vector<B32> &psigs, uint8_t sig64[64]);
 
+// ---------------------------------------------------------------- sign-to-contract (include/secp256k1_ecdsa_s2c.h)
+// the commitment check: r == x(R0 + H_"s2c/ecdsa/point"(ser33(R0) || data32) * G) mod n, with R0 the parsed opening
+bool s2c_verify_commit(const uint8_t r32[32], const uint8_t data32[32], const uint8_t opening33[33]);
+void s2c_host_commit(const uint8_t rho32[32], uint8_t out[32]);   // H_"s2c/ecdsa/data"(rho)
+
+// ---------------------------------------------------------------- ECDSA adaptor signatures (include/secp256k1_ecdsa_adaptor.h)
+// 162 bytes: R (33) || R' (33) || s' (32) || e (32) || s_dleq (32), with R = kY, R' = kG and a DLEQ proof for (G, R', Y, R)
+bool dleq_verify(const U256 &s, const U256 &e, const Pt &p1, const Pt &gen2, const Pt &p2);
+void dleq_prove(const U256 &sk, const U256 &nonce, const Pt &gen2, U256 *s, U256 *e);     // p1 = sk*G, p2 = sk*gen2; nonce != 0
+bool adaptor_verify(const uint8_t a162[162], const Pt &X, const uint8_t msg32[32], const Pt &Y);
+// what an encryptor who chooses everything herself can build: R = k*Y, R' = k*G, proof with dleq_nonce, and any 32 bytes as s'
+void adaptor_craft(const U256 &k, const Pt &Y, const uint8_t sp32[32], const U256 &dleq_nonce, uint8_t out162[162]);
+
 // ---------------------------------------------------------------- half aggregation
 // triples: pk32, msg32, sig64
 struct Triple { uint8_t pk[32], msg[32], sig[64]; };
